@@ -237,3 +237,37 @@ Proof.
   cbn. rewrite H1, H2, H3, H4, H5, H6. cbn. apply orb_true_r.
 Qed.
 End AN.
+
+(* the hypotheses are satisfiable: `@&salt` as the first component of a recipe is a dangling
+   reference, `@&(0)x{}` an intermediate reference to step 0 *)
+Definition ex_text (s : str) : text := text_from_str s 1.
+Definition ex_ref_mods : modifiers :=
+  {| m_recipe := false; m_ref := true; m_hidden := false; m_opt := false; m_new := false |}.
+Definition ex_dangling : p_ingredient :=
+  {| pi_span := (0, 6); pi_mods := ex_ref_mods; pi_inter := None; pi_name := ex_text [115; 97; 108; 116];
+     pi_alias := None; pi_quantity := None; pi_note := None |}.
+Definition ex_x : aext := {| x_modes := true; x_inline := true; x_advanced := true |}.
+
+Example ex_dangling_is_error :
+  match Analysis.ingredient (fun s => s) ex_x init ex_dangling with
+  | Done (s1, _) => a_errors s1
+  | Panic _ => false
+  end = true.
+Proof. vm_compute. reflexivity. Qed.
+
+Example ex_dangling_hyps :
+  pi_inter ex_dangling = None /\ m_ref (pi_mods ex_dangling) = true /\ m_new (pi_mods ex_dangling) = false /\
+  same_name (fun s => s) (a_ingredients init) (ing_name ex_dangling) = None.
+Proof. repeat split. Qed.
+
+Definition ex_inter0 : p_ingredient :=
+  {| pi_span := (0, 8); pi_mods := ex_ref_mods;
+     pi_inter := Some {| ir_mode := RMNumber; ir_kind := TKStep; ir_val := 0%Z |};
+     pi_name := ex_text [120]; pi_alias := None; pi_quantity := None; pi_note := None |}.
+
+Example ex_inter0_is_error :
+  match Analysis.ingredient (fun s => s) ex_x init ex_inter0 with
+  | Done (s1, _) => a_errors s1
+  | Panic _ => false
+  end = true.
+Proof. vm_compute. reflexivity. Qed.
